@@ -4,6 +4,7 @@
 //! Under `cargo kani` those are symbolic and CBMC decides the assertions for
 //! all values within the bounds stated next to each harness; natively the very
 //! same function is the *replay twin* (`src/bin/replay.rs`).
+#![cfg_attr(kani, feature(panic_internals))]
 #![allow(clippy::all)]
 #![allow(static_mut_refs)]
 
